@@ -1178,6 +1178,8 @@ class Evaluator(CallMixin, StmtMixin):
             container = list(container.items)
         if isinstance(container, (set, frozenset, tuple, list)):
             elems = list(container)
+            if not elems:
+                return False        # nothing is a member of an empty container
             if isinstance(item, SObj):
                 if all(isinstance(x, str) for x in elems) and item.kinds <= frozenset({"STR", "JSXEXPR"}):
                     fs = frozenset(elems)
@@ -1353,9 +1355,14 @@ class Evaluator(CallMixin, StmtMixin):
                     return self.call_method_def(a, m2[0], m2[1], [b], {}, node)
         if ls is not None or rs is not None:
             # str + unknown: TypeError unless the other side implements __radd__; keep opaque
-            return SStr((ls.frags if ls else (Frag("OP", ("operand", short(l)), None, ()),)) +
-                        (rs.frags if rs else (Frag("OP", ("operand", short(r)), None, ()),)))
-        return _opq(("add", short(l), short(r)), l, r)
+            return SStr((ls.frags if ls else (Frag("OP", ("operand", short(l)), l, ()),)) +
+                        (rs.frags if rs else (Frag("OP", ("operand", short(r)), r, ()),)))
+        o_ = _opq(("add", short(l), short(r)), l, r)
+        if all(isinstance(x, (SList, list, tuple)) or (isinstance(x, SObj) and x.kinds and x.kinds <= frozenset({"LIST", "TUPLE"})) for x in (l, r)):
+            # list + list / tuple + tuple: a new sequence holding the operands' elements (a shallow copy of both)
+            o_.__dict__["copy_of"] = l
+            o_.kinds = frozenset({"LIST"} if not (isinstance(l, SObj) and l.kinds <= frozenset({"TUPLE"})) else {"TUPLE"})
+        return o_
 
     def class_of(self, v: Any) -> Optional[ClassInfo]:
         if isinstance(v, SNew) and isinstance(v.cls, ClassInfo):
